@@ -2660,6 +2660,17 @@ class Exec:
             return [(st, VStr(s='<fmt>'))]
         if isinstance(b, VStr) and name == 'join' and b.s is not None and False:
             pass
+        if isinstance(b, VBytes) and name in ('rjust', 'ljust') and 1 <= len(A) <= 2 and A[0].conc() is not None and A[0].conc() <= 4096:
+            # bytes.rjust(w[, fill]) / ljust: padded with the fill octet (default space) up to w octets, unchanged when already that long
+            w = A[0].conc()
+            fill = self.seq(A[1], st) if len(A) == 2 else self.lit_bytes(b' ')
+            if len(A) == 2 and not self.entails(st, z3.Length(fill) == 1):
+                raise ToolLimit('rjust/ljust with a fill of unknown length')
+            z = self.seq(b, st)
+            fillw = z3.Concat(*[fill] * w) if w > 1 else fill if w == 1 else z3.Empty(BYTES)
+            pad = z3.SubSeq(fillw, z3.IntVal(0), z3.IntVal(w) - z3.Length(z))
+            out = z3.If(z3.Length(z) >= w, z, z3.Concat(pad, z) if name == 'rjust' else z3.Concat(z, pad))
+            return [(st, VBytes(out))]
         if isinstance(b, VBytes) and name == 'join':
             zs = [self.seq(x, st) for x in self.items(A[0], st)]
             z = z3.Empty(BYTES) if not zs else zs[0] if len(zs) == 1 else z3.Concat(*zs)
